@@ -674,3 +674,132 @@ Proof.
   - destruct (ace_of_string s) as [a'| |] eqn:Ea; try discriminate. cbn [bind]. intros H. inversion H; subst.
     apply ace_platform_inv; [exact I | apply (ace_of_string_wf s a Ea)].
 Qed.
+
+(* ======================================================================== *)
+(* chmod modes                                                                *)
+(* ======================================================================== *)
+Definition wf_mode (md : mode) : Prop :=
+  match md with
+  | MNum n => n < 512
+  | MEqual t m | MPlus t m | MMinus t m => 1 <= t /\ t < 8 /\ m < 8
+  end.
+
+Definition mode_eqb (a b : mode) : bool :=
+  match a, b with
+  | MNum x, MNum y => N.eqb x y
+  | MEqual t m, MEqual t' m' | MPlus t m, MPlus t' m' | MMinus t m, MMinus t' m' => N.eqb t t' && N.eqb m m'
+  | _, _ => false
+  end.
+Lemma mode_eqb_eq a b : mode_eqb a b = true -> a = b.
+Proof.
+  destruct a, b; cbn [mode_eqb]; try discriminate; rewrite ?andb_true_iff, ?N.eqb_eq;
+    [intros -> | intros [-> ->] ..]; reflexivity.
+Qed.
+Definition mode_ok (md : mode) : bool :=
+  match mode_of_string (mode_to_string md) with Ok md' => mode_eqb md' md | _ => false end.
+Lemma mode_ok_spec md : mode_ok md = true -> mode_of_string (mode_to_string md) = Ok md.
+Proof.
+  unfold mode_ok. destruct (mode_of_string (mode_to_string md)) as [md'| |]; try discriminate.
+  intros H. apply mode_eqb_eq in H. subst. reflexivity.
+Qed.
+
+Lemma mode_num_ok : forallb (fun n => mode_ok (MNum n)) (nrange 512) = true.
+Proof. vm_compute. reflexivity. Qed.
+Lemma mode_sym_ok :
+  forallb (fun t => forallb (fun m => mode_ok (MEqual (t + 1) m) && mode_ok (MPlus (t + 1) m) && mode_ok (MMinus (t + 1) m))
+                            (nrange 8)) (nrange 7) = true.
+Proof. vm_compute. reflexivity. Qed.
+
+(* parsing the canonical spelling of a mode gives the mode (all 512 + 3*7*8 of them) *)
+Theorem mode_inv : forall md, wf_mode md -> mode_of_string (mode_to_string md) = Ok md.
+Proof.
+  intros md H. apply mode_ok_spec.
+  assert (Hs : forall t m, 1 <= t -> t < 8 -> m < 8 ->
+            mode_ok (MEqual t m) && mode_ok (MPlus t m) && mode_ok (MMinus t m) = true).
+  { intros t m H1 H8 Hm. pose proof (nrange_forall _ _ mode_sym_ok (t - 1) ltac:(lia)) as Ht. cbv beta in Ht.
+    pose proof (nrange_forall _ _ Ht m Hm) as Hm'. cbv beta in Hm'. replace (t - 1 + 1) with t in Hm' by lia. exact Hm'. }
+  destruct md as [n|t m|t m|t m]; cbn [wf_mode] in H.
+  - exact (nrange_forall _ _ mode_num_ok n H).
+  - destruct H as (H1 & H8 & Hm). specialize (Hs t m H1 H8 Hm). rewrite !andb_true_iff in Hs. tauto.
+  - destruct H as (H1 & H8 & Hm). specialize (Hs t m H1 H8 Hm). rewrite !andb_true_iff in Hs. tauto.
+  - destruct H as (H1 & H8 & Hm). specialize (Hs t m H1 H8 Hm). rewrite !andb_true_iff in Hs. tauto.
+Qed.
+
+(* every accepted text denotes a mode of that domain: re-spelling it is stable *)
+Lemma parse_rwx_bound l : forall acc m, acc < 8 -> parse_rwx l acc = Ok m -> m < 8.
+Proof.
+  induction l as [|c l IH]; intros acc m Ha; cbn [parse_rwx]; [intros H; inversion H; subst; exact Ha|].
+  destruct (byte_eqb c x78); [apply IH; apply (lor_lt_pow2 acc 1 3); [exact Ha | reflexivity]|].
+  destruct (byte_eqb c x77); [apply IH; apply (lor_lt_pow2 acc 2 3); [exact Ha | reflexivity]|].
+  destruct (byte_eqb c x72); [apply IH; apply (lor_lt_pow2 acc 4 3); [exact Ha | reflexivity]|].
+  discriminate.
+Qed.
+
+Lemma lor_ge_1 a b : b <> 0 -> 1 <= N.lor a b.
+Proof. intros Hb. destruct (N.eq_dec (N.lor a b) 0) as [E|E]; [apply N.lor_eq_0_iff in E; tauto | lia]. Qed.
+
+Lemma parse_symbolic_wf l : forall target first md,
+  target < 8 -> (first = false -> 1 <= target) -> parse_symbolic l target first = Ok md -> wf_mode md.
+Proof.
+  induction l as [|c l IH]; intros target first md Ht Hf; cbn [parse_symbolic]; [discriminate|].
+  assert (Hstep : forall b, b < 8 -> b <> 0 -> parse_symbolic l (N.lor target b) false = Ok md -> wf_mode md).
+  { intros b Hb Hb0. apply IH; [apply (lor_lt_pow2 target b 3); assumption | intros _; apply lor_ge_1, Hb0]. }
+  assert (Ht' : 1 <= (if first then 7 else target) /\ (if first then 7 else target) < 8)
+    by (destruct first; [lia | split; [apply Hf; reflexivity | exact Ht]]).
+  destruct (byte_eqb c x75); [apply Hstep; [reflexivity|discriminate]|].
+  destruct (byte_eqb c x67); [apply Hstep; [reflexivity|discriminate]|].
+  destruct (byte_eqb c x6f); [apply Hstep; [reflexivity|discriminate]|].
+  destruct (byte_eqb c x61); [apply Hstep; [reflexivity|discriminate]|].
+  destruct (byte_eqb c x2b).
+  { destruct (parse_rwx l 0) as [m| |] eqn:E; try discriminate. cbn [bind]. intros H. inversion H; subst.
+    cbn [wf_mode]. pose proof (parse_rwx_bound l 0 m ltac:(lia) E). tauto. }
+  destruct (byte_eqb c x2d).
+  { destruct (parse_rwx l 0) as [m| |] eqn:E; try discriminate. cbn [bind]. intros H. inversion H; subst.
+    cbn [wf_mode]. pose proof (parse_rwx_bound l 0 m ltac:(lia) E). tauto. }
+  destruct (byte_eqb c x3d).
+  { destruct (parse_rwx l 0) as [m| |] eqn:E; try discriminate. cbn [bind]. intros H. inversion H; subst.
+    cbn [wf_mode]. pose proof (parse_rwx_bound l 0 m ltac:(lia) E). tauto. }
+  discriminate.
+Qed.
+
+Lemma octal_digit_bound b x : octal_digit b = Some x -> x < 8.
+Proof.
+  unfold octal_digit. destruct (N.leb 48 (b2n b) && N.leb (b2n b) 55) eqn:E; [|discriminate].
+  apply andb_true_iff in E. destruct E as [E1 E2]. apply N.leb_le in E1, E2. intros H. inversion H. lia.
+Qed.
+
+Lemma mode_of_string_wf s md : mode_of_string s = Ok md -> wf_mode md.
+Proof.
+  unfold mode_of_string. destruct s as [|c0 s0]; [discriminate|].
+  destruct (forallb is_digit (c0 :: s0)).
+  - destruct s0 as [|c1 [|c2 [|c3 s3]]]; try discriminate.
+    destruct (octal_digit c0) as [x|] eqn:Ex; [|discriminate].
+    destruct (octal_digit c1) as [y|] eqn:Ey; [|discriminate].
+    destruct (octal_digit c2) as [z|] eqn:Ez; [|discriminate].
+    intros H. inversion H; subst. cbn [wf_mode].
+    apply octal_digit_bound in Ex, Ey, Ez. lia.
+  - apply parse_symbolic_wf; [reflexivity | discriminate].
+Qed.
+
+Theorem mode_stable : forall s md, mode_of_string s = Ok md -> mode_of_string (mode_to_string md) = Ok md.
+Proof. intros s md H. apply mode_inv, (mode_of_string_wf s md H). Qed.
+
+(* applying a mode twice is applying it once: for every mode value and every permission word *)
+Ltac bits_tauto :=
+  apply N.bits_inj; intros k;
+  rewrite ?N.lor_spec, ?N.land_spec, ?N.ldiff_spec, ?N.lor_spec, ?N.land_spec, ?N.ldiff_spec;
+  repeat match goal with |- context [N.testbit ?a k] => destruct (N.testbit a k) end; reflexivity.
+
+Theorem mode_apply_idem : forall md x, mode_apply md (mode_apply md x) = mode_apply md x.
+Proof.
+  intros [n|t m|t m|t m] x; cbn [mode_apply].
+  - reflexivity.
+  - destruct (N.testbit t 0), (N.testbit t 1), (N.testbit t 2); bits_tauto.
+  - bits_tauto.
+  - bits_tauto.
+Qed.
+
+(* a parsed mode, applied: the form used by `pna chmod` (C10) *)
+Corollary mode_parse_apply_idem : forall s md x, mode_of_string s = Ok md ->
+  mode_apply md (mode_apply md x) = mode_apply md x.
+Proof. intros s md x _. apply mode_apply_idem. Qed.
